@@ -60,6 +60,10 @@ def run(P, rep, tier):
     from . import c03
 
     rep.attempt(c03.r3_name_language, P, rep, ctx)
+    # "after patches, copies, moves": deleting / moving an embedded file addresses exactly that node (C01.R2, C01.R6, C01.R8)
+    rep.attempt(c01.r2_delete_marker, P, rep, ctx)
+    rep.attempt(c01.r6_move_copy, P, rep, ctx)
+    rep.attempt(c01.r8_resolution_owner, P, rep, ctx)
     rep.floor("C17.R1", 4)
     rep.floor("C17.R2", 5)
     rep.floor("C17.R3", 7)
